@@ -52,7 +52,7 @@ class Check(HCheck):
         l1 = al.long_lrus(lens1)
         l2 = [l1[0] + L.long_stem(75, b"a"), l1[1] + L.long_stem(149, b"\xff"), l1[0] + L.long_stem(74, b"{")]
         ops = [al.page(u, i % 2 == 0) for i, u in enumerate(l1)]
-        ops += [al.page(l2[0]), al.page(l2[1], True), al.create(l2[2]), al.addprefix(l1[1], 0), al.rule(l1[0], "path2"), al.links((l1[2], l2[0]), (l2[0], l1[2]))]
+        ops += [al.page(l1[0] + b"p:c|q:d|"), al.page(l2[0]), al.page(l2[1], True), al.create(l2[2]), al.addprefix(l1[1], 0), al.rule(l1[0], "path2"), al.links((l1[2], l2[0]), (l2[0], l1[2]))]
         sp = [Space(Cfg("never"), ops, 5 if thorough else 4, name="long/two-levels")]
         # byte alphabet: stems that differ only beyond the first block / in high and low bytes
         lb = [A + L.long_stem(n, f) for n, f in ((75, b"\xff"), (75, b"\x00"), (75, b"{"), (75, b"}"), (75, b"\x80"), (149, b"\x80"), (148, b"{"))]
